@@ -187,3 +187,48 @@ m('c15-to-bigint-rounds', ['C15'], 'to_bigint:projection', [
 m('c15-truncation-floors', ['C15'], 'R-NOCALL', [
   ('src/lib.rs', "                    self.digits / ten_to_the_uint(scale_diff)\n                }\n            }\n        };\n\n        BigDecimal {\n            scale: scale,\n            int_val: BigInt::from_biguint(self.sign, digits),", "                    num_integer::Integer::div_floor(&BigInt::from_biguint(self.sign, self.digits.clone()), &BigInt::from(ten_to_the_uint(scale_diff))).magnitude().clone()\n                }\n            }\n        };\n\n        BigDecimal {\n            scale: scale,\n            int_val: BigInt::from_biguint(self.sign, digits),")],
   'negative values floor for scale gaps >= 20')
+# ---- C10 / C11 / C12
+m('c10-sqrt-ignores-ctx-mode', ['C10'], 'impl_sqrt->BigDecimal::with_precision_round', [
+  ('src/arithmetic/sqrt.rs', "unrounded_result.with_precision_round(ctx.precision(), ctx.rounding_mode())", "unrounded_result.with_precision_round(ctx.precision(), RoundingMode::HalfEven)")],
+  'sqrt_with_context ignores the context rounding mode')
+m('c10-sqrt-default-precision-in-impl', ['C10'], 'PROV-CTX', [
+  ('src/arithmetic/sqrt.rs', "unrounded_result.with_precision_round(ctx.precision(), ctx.rounding_mode())", "unrounded_result.with_precision_round(Context::default().precision(), ctx.rounding_mode())")],
+  'sqrt_with_context rounds to the default precision')
+m('c10-ref-sqrt-negative-not-none', ['C10'], 'R-TABLE', [
+  ('src/lib.rs', """            Minus => None,
+            NoSign => Some(Zero::zero()),
+            Plus => Some(arithmetic::sqrt::impl_sqrt(uint, scale, ctx)),""", """            NoSign => Some(Zero::zero()),
+            Plus | Minus => Some(arithmetic::sqrt::impl_sqrt(uint, scale, ctx)),""")],
+  'reference sqrt of a negative returns the root of |x|')
+m('c11-cbrt-sign-hardcoded', ['C11'], 'R-SIGN', [
+  ('src/arithmetic/cbrt.rs', """        sign: n.sign(),
+        mode: ctx.rounding_mode(),""", """        sign: Sign::Plus,
+        mode: ctx.rounding_mode(),""")],
+  'cbrt rounds negative numbers as if positive (and loses the sign)')
+m('c11-cbrt-ignores-ctx-precision', ['C11'], 'PROV-CTX', [
+  ('src/arithmetic/cbrt.rs', "impl_cbrt_uint_scale((n.magnitude(), scale).into(), ctx.precision(), rounding_data)", "impl_cbrt_uint_scale((n.magnitude(), scale).into(), Context::default().precision(), rounding_data)")],
+  'cbrt_with_context uses the default precision')
+m('c11-cbrt-resign-flipped', ['C11'], 'R-SIGN', [
+  ('src/arithmetic/cbrt.rs', "let result = BigInt::from_biguint(rounding_data.sign, result_digits);", "let result = BigInt::from_biguint(rounding_data.sign, result_digits).neg().neg().abs();")],
+  'result re-signed with something other than the rounding sign')
+m('c12-inverse-no-mirror', ['C12'], 'R-SIGN', [
+  ('src/lib.rs', """        let mirrored_ctx;
+        let ctx = match (self.sign(), ctx.rounding_mode()) {
+            (Sign::Minus, RoundingMode::Floor) => {
+                mirrored_ctx = ctx.with_rounding_mode(RoundingMode::Ceiling);
+                &mirrored_ctx
+            }
+            (Sign::Minus, RoundingMode::Ceiling) => {
+                mirrored_ctx = ctx.with_rounding_mode(RoundingMode::Floor);
+                &mirrored_ctx
+            }
+            _ => ctx,
+        };
+""", "")],
+  'the original sign-blind rounding of inverse (fixed in ade36ad)')
+m('c12-inverse-mirror-wrong-sign', ['C12'], 'mirror-table', [
+  ('src/lib.rs', "(Sign::Minus, RoundingMode::Ceiling) => {\n                mirrored_ctx = ctx.with_rounding_mode(RoundingMode::Floor);", "(Sign::Plus, RoundingMode::Ceiling) => {\n                mirrored_ctx = ctx.with_rounding_mode(RoundingMode::Floor);")],
+  'Ceiling mirrored for positive numbers instead of negative ones')
+m('c12-inverse-ignores-ctx-mode', ['C12'], 'PROV-CTX', [
+  ('src/arithmetic/inverse.rs', "running_result.with_precision_round(ctx.precision(), ctx.rounding_mode())", "running_result.with_precision_round(ctx.precision(), RoundingMode::HalfUp)")],
+  'inverse_with_context ignores the context mode')
